@@ -4,13 +4,41 @@
   Model: `Influx.Reducers` (Model/Reducers.lean), the reducers of
   influxql/query/functions.go, functions.gen.go, call_iterator.go as coded.
   Statement: `Influx.Spec.C23.verdict`/`holdsOn` (Spec/C23.lean).
+
+  Three families of theorems:
+   * structural, for EVERY arithmetic (`Arith V F`, no laws): derivative, difference,
+     elapsed, cumulative_sum, moving_average, stddev — the reducer emits exactly the list
+     comprehension (which points, which order, which timestamps, which operands);
+   * under a strict weak value order (integers; floats without NaN): percentile, median —
+     the sort-based reducers satisfy the counting (sort-free) statement, including which of
+     several equal-valued points percentile reports (stability);
+   * under the value order laws (`OrdLaws`: `<` strict weak, `==` is "neither less"):
+     distinct, top/bottom (a bounded heap abstracted as a bag with a readable / replaceable
+     root), mode (the reported value has maximal frequency);
+   * integers exactly: spread; integral without GROUP BY time for every arithmetic.
+  Not proved (correspondence only): integral with GROUP BY time windows; float spread
+  (`math.Min`/`math.Max`); which of two ±0 values a float selection reports.
+  The unrestricted statement is false of the code (`C23_full_fails`): mode() breaks its
+  documented tie rule (known finding `mode-tie`); integral over descending input is the
+  second known finding (`integral-descending`, replayed by the harness only).
 -/
 import Influx.Lemmas.ReducersStream
+import Influx.Lemmas.ReducersWindow
+import Influx.Lemmas.ReducersSelect
+import Influx.Lemmas.ReducersDistinct
+import Influx.Lemmas.ReducersTop
+import Influx.Lemmas.ReducersMode
+import Influx.Lemmas.ReducersIntegral
 
 namespace Influx.Props.C23
 open Influx.Reducers Influx.Reducers.Lemmas Influx.Spec.C23
 
 variable {V F : Type}
+
+/-- a float arithmetic over `Int`, only to have concrete `Arith` values in examples / witnesses -/
+def dummyF0 : FOps Int :=
+  { add := (· + ·), sub := (· - ·), mul := (· * ·), div := (· / ·), lt := fun a b => decide (a < b),
+    ofInt := id, sqrt := id, nan := 0, half := 0 }
 
 /-! ## Stream functions: the emitted list IS the list comprehension, for every arithmetic -/
 
@@ -35,6 +63,86 @@ theorem C23_cumulativeSum (A : Arith V F) (xs : List (Pt V)) :
     cumulativeSum A.vo xs = cumulativeSumDef A xs :=
   cumulativeSum_eq_def A xs
 
+/-- moving_average(n), `n ≥ 1`: the ring buffer never indexes out of range and the
+    reducer emits one point per full window, stamped with the window's last time, carrying
+    (sliding sum) / n; in particular `len − n + 1` points. -/
+theorem C23_movingAverage (A : Arith V F) (n : Nat) (hn : 0 < n) (xs : List (Pt V)) :
+    movingAverage A.vo A.fo n xs = some (movingAverageDef A n xs) :=
+  movingAverage_eq_def A n hn xs
+
+theorem C23_movingAverage_count (A : Arith V F) (n : Nat) (hn : 0 < n) (xs : List (Pt V)) :
+    ∃ out, movingAverage A.vo A.fo n xs = some out ∧ out.length ≤ xs.length + 1 - n := by
+  refine ⟨_, movingAverage_eq_def A n hn xs, ?_⟩
+  unfold movingAverageDef
+  exact Nat.le_trans (List.length_filterMap_le _ _) (by simp)
+
+/-- stddev = sqrt(Σ(x − mean)² / (n − 1)) with the incremental mean, NaN skipped, NaN for
+    fewer than two points. -/
+theorem C23_stddev (A : Arith V F) (xs : List (Pt V)) : stddev A.vo A.fo xs = stddevDef A xs :=
+  stddev_eq_def A xs
+
+/-! ## Selections under a strict weak value order -/
+
+/-- percentile(p): nothing when the nearest rank `⌊len·p/100+0.5⌋−1` falls outside the
+    series; otherwise exactly one INPUT point whose value has that rank (by counting), and
+    among equal values the one a stable sort puts there. -/
+theorem C23_percentile (A : Arith V F) (h : StrictWeak A.vo.lt) (pn : Int) (pd : Nat) (xs : List (Pt V)) :
+    percentileOK A pn pd xs (percentile A.vo pn pd xs) = true :=
+  percentile_ok A h pn pd xs
+
+/-- median: the middle value by rank, or `lo + (hi − lo)/2` of the two middle ranks. -/
+theorem C23_median (A : Arith V F) (h : StrictWeak A.vo.lt) (xs : List (Pt V)) (hne : xs ≠ []) :
+    medianOK A xs (median A.vo A.fo xs) = true :=
+  median_ok A h xs hne
+
+/-- spread over integers (inside the int64 range) = maximum − minimum. -/
+theorem C23_spread_int (fo : FOps F) (eqvF : F → F → Bool) (hF : ∀ x, eqvF x x = true)
+    (xs : List (Pt Int)) (hne : xs ≠ [])
+    (hrange : ∀ p ∈ xs, -9223372036854775808 ≤ p.v ∧ p.v ≤ 9223372036854775807) :
+    ∃ v, spread (intOps fo) xs = [⟨zeroTime, v⟩] ∧ spreadValueOK (intArith fo eqvF hF) xs v = true :=
+  spread_int_ok F fo eqvF hF xs hne hrange
+
+/-- distinct: each value once, represented by the first point carrying it, ordered by
+    (time, value). -/
+theorem C23_distinct (A : Arith V F) (h : OrdLaws A) (hexact : ∀ a b, A.eqvV a b = true → a = b)
+    (xs : List (Pt V)) : distinctOK A xs (distinct A.vo xs) = true :=
+  distinct_ok A h.sw
+    ⟨fun a b hab => by rw [eq_symm' A h]; exact hab,
+     fun a b c hab hbc => by rw [← eq_congr_right A h b c hbc a]; exact hab⟩ hexact xs
+
+/-- top(n) / bottom(n): `min n len` input points, best first (ties: earlier time first),
+    no left-out point better than a selected one. -/
+theorem C23_top (A : Arith V F) (h : OrdLaws A) (hexact : ∀ a b, A.eqvV a b = true → a = b)
+    (isTop : Bool) (n : Nat) (xs : List (Pt V)) : topOK A isTop n xs (topN A.vo isTop n xs) = true :=
+  top_ok A h hexact isTop n xs
+
+/-- mode: ONE point whose value occurs at least as often as every other value (the
+    documented tie rule is NOT part of this theorem: the code breaks it, see below). -/
+theorem C23_mode_value (A : Arith V F) (h : OrdLaws A) (xs : List (Pt V)) (hne : xs ≠ []) :
+    modeOK A xs (mode A.vo xs) = true :=
+  mode_ok A h xs hne
+
+/-- integral without GROUP BY time over a series inside the statement's time range
+    (ascending reads), integer and float reducers, any arithmetic: one row at the start time
+    with the left-to-right sum of the trapezia; nothing when the series ends on that time. -/
+theorem C23_integral_plain (A : Arith V F) (isInt : Bool) (unit off st en : Int) (xs : List (Pt V))
+    (hin : ∀ p ∈ xs, p.t ≤ en) :
+    integral A.vo A.fo isInt unit ⟨0, off, st, en, true⟩ xs = integralPlain A isInt unit st xs :=
+  integral_plain A isInt unit off st en xs hin
+
+/-- the integer instance satisfies the value order laws -/
+theorem int_ordLaws (fo : FOps F) (eqvF : F → F → Bool) (hF : ∀ x, eqvF x x = true) :
+    OrdLaws (intArith fo eqvF hF) where
+  sw := strictWeak_ofKey (fun (x : Int) => x)
+  eq_iff := by
+    intro a b
+    simp only [intArith, intOps]
+    by_cases h1 : a < b <;> by_cases h2 : b < a <;> simp [h1, h2] <;> omega
+
+theorem int_exact (fo : FOps F) (eqvF : F → F → Bool) (hF : ∀ x, eqvF x x = true) :
+    ∀ a b, (intArith fo eqvF hF).eqvV a b = true → a = b := by
+  intro a b h; simpa [intArith] using h
+
 /-! ## The statement checker accepts the model -/
 
 theorem ptsEq_refl {W : Type} (eqv : W → W → Bool) (h : ∀ x, eqv x x = true) (l : List (Pt W)) :
@@ -43,28 +151,128 @@ theorem ptsEq_refl {W : Type} (eqv : W → W → Bool) (h : ∀ x, eqv x x = tru
   | nil => rfl
   | cons a l ih => simp [ptsEq, h, ih]
 
-/-- functions for which "model output = definition" is proved for every arithmetic -/
-def proved : Fn → Bool
-  | .derivative .. => true
-  | .difference _ => true
-  | .elapsed _ => true
-  | .cumulativeSum => true
-  | _ => false
+/-- the observations `C23_holdsOn_partial` covers: every function except spread (integers:
+    `C23_holdsOn_int_spread`), integral restricted to ascending reads without GROUP BY time,
+    and mode restricted to inputs on which the code's choice obeys the documented tie rule
+    (the negation of the known finding `mode-tie`). -/
+def covered (A : Arith V F) (fn : Fn) (xs : List (Pt V)) : Bool :=
+  match fn with
+  | .movingAverage n => decide (0 < n)
+  | .spread => false
+  | .mode =>
+    match mode A.vo xs with
+    | [p] => modeTieOK A xs p.v
+    | _ => false
+  | .integral _ dur _ _ _ asc => asc && decide (dur = 0)
+  | _ => true
 
-/-- **C23 (partial)**: on every input series the statement checker accepts what the
-    model of the reducer emits — here for the functions in `proved`; the others are
-    (so far) tied by correspondence only. -/
-theorem C23_holdsOn_partial (A : Arith V F) (isInt : Bool) (fn : Fn) (xs : List (Pt V))
-    (h : proved fn = true) :
+/-- **C23 (partial)**: for every arithmetic satisfying the value order laws, every covered
+    function with any parameters and every non-empty input series, the statement checker
+    accepts what the model of the reducer emits. -/
+theorem C23_holdsOn_partial (A : Arith V F) (hord : OrdLaws A)
+    (hexact : ∀ a b, A.eqvV a b = true → a = b) (isInt : Bool) (fn : Fn)
+    (xs : List (Pt V)) (hne : xs ≠ []) (h : covered A fn xs = true) :
     holdsOn A isInt ⟨fn, xs, eval A isInt fn xs⟩ = true := by
-  cases fn <;> simp only [proved] at h <;> try contradiction
+  cases fn <;> simp only [covered] at h <;> try contradiction
   · simp [holdsOn, verdict, eval, expectF, C23_derivative, ptsEq_refl, A.eqvF_refl]
   · simp [holdsOn, verdict, eval, expectV, C23_difference, ptsEq_refl, A.eqvV_refl]
   · simp [holdsOn, verdict, eval, C23_elapsed, ptsEq_refl]
   · simp [holdsOn, verdict, eval, expectV, C23_cumulativeSum, ptsEq_refl, A.eqvV_refl]
+  · rename_i n
+    have hn : 0 < n := by simpa using h
+    simp [holdsOn, verdict, eval, expectF, C23_movingAverage A n hn, ptsEq_refl, A.eqvF_refl]
+  · rename_i pn pd
+    simp [holdsOn, verdict, eval, C23_percentile A hord.sw]
+  · have hm := C23_median A hord.sw xs hne
+    simp only [holdsOn, verdict, eval]
+    unfold medianOK at hm
+    split at hm
+    · rename_i p hp
+      simp only [hp]
+      simp only [Bool.and_eq_true, Bool.or_eq_true, decide_eq_true_eq] at hm
+      have h2 := hm.2
+      simp only [hm.1, Bool.not_true, Bool.false_eq_true, if_false]
+      rcases h2 with h2 | h2
+      · simp [h2]
+      · simp [h2]
+    · cases hm
+  · -- mode
+    have hm := C23_mode_value A hord xs hne
+    simp only [holdsOn, verdict, eval]
+    unfold modeOK at hm
+    split at hm
+    · rename_i p hp
+      simp only [hp] at h ⊢
+      simp only [Bool.and_eq_true, Bool.or_eq_true, decide_eq_true_eq] at hm
+      simp only [hm.1, Bool.not_true, Bool.false_eq_true, if_false, h]
+      rcases hm.2 with h2 | h2
+      · simp [h2]
+      · simp [h2]
+    · cases hm
+  · simp [holdsOn, verdict, eval, expectF, C23_stddev, ptsEq_refl, A.eqvF_refl]
+  · simp [holdsOn, verdict, eval, C23_distinct A hord hexact]
+  · simp [holdsOn, verdict, eval, C23_top A hord hexact]
+  · simp [holdsOn, verdict, eval, C23_top A hord hexact]
+  · -- integral, ascending, no GROUP BY time
+    rename_i unit dur off st en asc
+    simp only [Bool.and_eq_true, decide_eq_true_eq] at h
+    obtain ⟨hasc, hdur⟩ := h
+    subst hasc; subst hdur
+    simp only [holdsOn, verdict, eval, if_true]
+    by_cases hA : ascending xs = true
+    · simp only [hA, Bool.not_true, Bool.false_eq_true, if_false]
+      by_cases hin : (xs.all fun p => decide (st ≤ p.t) && decide (p.t ≤ en)) = true
+      · simp only [hin, Bool.not_true, Bool.false_eq_true, if_false]
+        have hin' : ∀ p ∈ xs, p.t ≤ en := by
+          intro p hp
+          have := List.all_eq_true.mp hin p hp
+          simp only [Bool.and_eq_true, decide_eq_true_eq] at this
+          exact this.2
+        rw [C23_integral_plain A isInt unit off st en xs hin']
+        unfold integralPlain
+        cases hl : xs.getLast? with
+        | none => simp
+        | some lastp =>
+          simp only
+          by_cases h0 : lastp.t = (if isInt = true then if st = -9223372036854775806 then 0 else st else 0)
+          · simp [h0]
+          · simp [h0, ptsEq_refl, A.eqvF_refl]
+      · simp [hin]
+    · simp [hA]
 
--- the hypothesis is met by non-trivial operations
-example : proved (.derivative 10 true false) = true := rfl
-example : proved (.difference true) = true := rfl
+/-- … for the integer reducers unconditionally (any float arithmetic) -/
+theorem C23_holdsOn_int (fo : FOps F) (eqvF : F → F → Bool) (hF : ∀ x, eqvF x x = true) (fn : Fn)
+    (xs : List (Pt Int)) (hne : xs ≠ []) (h : covered (intArith fo eqvF hF) fn xs = true) :
+    holdsOn (intArith fo eqvF hF) true ⟨fn, xs, eval (intArith fo eqvF hF) true fn xs⟩ = true :=
+  C23_holdsOn_partial _ (int_ordLaws fo eqvF hF) (int_exact fo eqvF hF) true fn xs hne h
+
+/-- … and integer spread -/
+theorem C23_holdsOn_int_spread (fo : FOps F) (eqvF : F → F → Bool) (hF : ∀ x, eqvF x x = true)
+    (xs : List (Pt Int)) (hne : xs ≠ [])
+    (hrange : ∀ p ∈ xs, -9223372036854775808 ≤ p.v ∧ p.v ≤ 9223372036854775807) :
+    holdsOn (intArith fo eqvF hF) true ⟨.spread, xs, eval (intArith fo eqvF hF) true .spread xs⟩ = true := by
+  obtain ⟨v, hv, hok⟩ := C23_spread_int fo eqvF hF xs hne hrange
+  have hv' : spread (intArith fo eqvF hF).vo xs = [⟨zeroTime, v⟩] := hv
+  simp [holdsOn, verdict, eval, hv', hok]
+
+-- the hypotheses are met by non-trivial operations
+example : covered (intArith dummyF0 (fun a b => decide (a = b)) (by simp)) (.derivative 10 true false) [⟨1, 2⟩] = true := rfl
+example : covered (intArith dummyF0 (fun a b => decide (a = b)) (by simp)) (.top 3) [⟨1, 2⟩, ⟨2, 5⟩] = true := rfl
+example : covered (intArith dummyF0 (fun a b => decide (a = b)) (by simp)) .mode [⟨1, 2⟩, ⟨2, 5⟩, ⟨3, 5⟩] = true := by decide
+
+/-! ## The unrestricted statement is false of the code -/
+
+def witnessArith : Arith Int Int := intArith dummyF0 (fun a b => decide (a = b)) (by simp)
+
+/-- **C23 at full strength fails**: mode() over three distinct integer values reports the
+    smallest value (7), the documented tie rule asks for the earliest (100).  Replayed on
+    the real `IntegerModeReduceSlice` by the harness (findings.d/C23.json, `mode-tie`). -/
+theorem C23_full_fails :
+    ¬ ∀ (fn : Fn) (xs : List (Pt Int)), xs ≠ [] →
+        holdsOn witnessArith true ⟨fn, xs, eval witnessArith true fn xs⟩ = true := by
+  intro h
+  have := h .mode [⟨321, 100⟩, ⟨381, 7⟩, ⟨441, 4503599627370495⟩] (by simp)
+  revert this
+  decide
 
 end Influx.Props.C23
